@@ -278,11 +278,21 @@ class P(flow.Plan):
             return counts, fails
         counts, fails = judge(trs, "tcp")
         # planted corruptions: a framed line on the wire, two job lines swapped, a line sent before the previous ok
-        base = next((t for t in trs if len([e for e in t["ev"] if e["k"] == "tx"]) >= 5 and not t["meta"]["pauses"]), None)
+        def job_txs(t):
+            """indices of the first job's line transmissions (not the resets), up to the next job"""
+            out = []
+            for i, e in enumerate(t["ev"]):
+                if e["k"] == "newjob":
+                    break
+                if e["k"] == "tx" and not bytes(e["text"]).startswith(b"M110"):
+                    out.append(i)
+            return out
+        base = next((t for t in trs if not t["meta"]["pauses"] and len(job_txs(t)) >= 3
+                     and t["ev"][job_txs(t)[0]]["text"] != t["ev"][job_txs(t)[1]]["text"]), None)
         ctl = 0
         if base is not None:
             c1, c2, c3 = _c.deepcopy(base), _c.deepcopy(base), _c.deepcopy(base)
-            tx = [i for i, e in enumerate(base["ev"]) if e["k"] == "tx"]
+            tx = [0] + job_txs(base)          # tx[1], tx[2]: the first two job lines
             c1["ev"][tx[1]]["text"] = list(b"N0 " + bytes(c1["ev"][tx[1]]["text"]).rstrip(b"\n") + b"*1\n")
             c2["ev"][tx[1]]["text"], c2["ev"][tx[2]]["text"] = c2["ev"][tx[2]]["text"], c2["ev"][tx[1]]["text"]
             rel = [i for i, e in enumerate(c3["ev"]) if e["k"] == "rel" and i > tx[1]][0]
@@ -290,7 +300,7 @@ class P(flow.Plan):
             _, cf = judge([c1, c2, c3], "tcpctl")
             got = {(i, c) for i, _, c in cf}
             want = {(0, "TCP_Plain"), (1, "TCP_Order"), (2, "TCP_Paced")}
-            if base["ev"][tx[1]]["text"] != base["ev"][tx[2]]["text"] and not want <= got:
+            if not want <= got:
                 raise flow.MachineryError("SenderTcpTrace missed planted corruptions: %s" % sorted(want - got))
             ctl = 3
         if fails:
